@@ -22,6 +22,13 @@ class RecPath(symex._ShadowOsPath):
     def isdir(self, p):
         return self._o._oracle('isdir', p)
 
+    def samefile(self, a, b):
+        return self._o._oracle('samefile', a)
+
+    def realpath(self, p):
+        self._o.events.append(('realpath', p))
+        return p
+
     def relpath(self, p, start=None):
         self._o.events.append(('relpath', p, start))
         return RelPath(p, start)
